@@ -1,5 +1,6 @@
 import Driver.Util
 import Model.Parse
+import Model.WireParser
 /-! driver ops of C04 (prefix `c04.`) -/
 namespace Driver
 open Model
@@ -11,7 +12,54 @@ def showReadResult : ReadResult → String
     "msg counts=" ++ ",".intercalate (counts.map toString) ++ " errs=" ++
       (if errs.isEmpty then "-" else ";".intercalate (errs.map fun (e, o) => e ++ "@" ++ toString o))
 
+/-- program syntax (prefix, space separated): `gb n`, `gc lsz`, `gr`, `sk w`, `sf d`, `gn`,
+`rs n ( body )`, `rf ( body )`, `tr ( body )`; a block ends at `)` or at the end of the line -/
+partial def parseProg : List String → Option (WP.Prog × List String)
+  | [] => some (.done, [])
+  | ")" :: rest => some (.done, ")" :: rest)
+  | "gb" :: n :: rest => do let n ← n.toNat?; let (k, r) ← parseProg rest; some (.prim (.getBytes n) k, r)
+  | "gc" :: n :: rest => do let n ← n.toNat?; let (k, r) ← parseProg rest; some (.prim (.getCounted n) k, r)
+  | "gr" :: rest => do let (k, r) ← parseProg rest; some (.prim .getRemaining k, r)
+  | "sk" :: n :: rest => do let n ← n.toInt?; let (k, r) ← parseProg rest; some (.prim (.seek n) k, r)
+  | "sf" :: n :: rest => do let n ← n.toNat?; let (k, r) ← parseProg rest; some (.prim (.seekFwd n) k, r)
+  | "gn" :: rest => do let (k, r) ← parseProg rest; some (.prim .getName k, r)
+  | "rs" :: n :: "(" :: rest => do
+    let n ← n.toNat?
+    let (b, r) ← parseProg rest
+    match r with
+    | ")" :: r' => do let (k, r'') ← parseProg r'; some (.restrict n b k, r'')
+    | _ => none
+  | "rf" :: "(" :: rest => do
+    let (b, r) ← parseProg rest
+    match r with
+    | ")" :: r' => do let (k, r'') ← parseProg r'; some (.restoreFurthest b k, r'')
+    | _ => none
+  | "tr" :: "(" :: rest => do
+    let (b, r) ← parseProg rest
+    match r with
+    | ")" :: r' => do let (k, r'') ← parseProg r'; some (.try_ b k, r'')
+    | _ => none
+  | _ => none
+
+def showOut (w : Bytes) : WP.Out → String
+  | .bytes a n => "b" ++ toHexP ((w.drop a).take n)
+  | .name n => "n" ++ showName n
+
+def showOutcome : WP.Outcome → String
+  | .ok => "ok" | .formError => "FormError" | .assertion => "AssertionError"
+
 def handleC04 : List String → Option String
+  | "c04.parser" :: w :: cur :: prog => do
+    let w ← ofHex w
+    let cur ← cur.toNat?
+    let (pr, rest) ← parseProg prog
+    if !rest.isEmpty then none
+    else some (match WP.mk w cur with
+      | none => "ctor FormError"
+      | some p =>
+        let r := WP.exec w p pr
+        showOutcome r.o ++ " cur=" ++ toString r.p.cur ++ " end=" ++ toString r.p.endp ++ " fur=" ++ toString r.p.fur
+          ++ " outs=" ++ ";".intercalate (r.outs.map (showOut w)))
   | ["c04.ttl", t] => do
     let t ← ofHex t
     some (match ttlFromText t with
